@@ -746,8 +746,9 @@ def interrupt_latch(ctx):
     (1) the error is not stored into a sticky error field unless the path tests that it is not Interrupted
     (a latched Interrupted makes every retry fail: `read_to_end` spins forever);
     (2) if the call has already copied bytes into the caller's buffer (a count accumulator that is later
-    returned in Ok), the Err arm does not return Err without testing the accumulator: the caller would
-    retry and the bytes already handed over are lost (success with missing data)."""
+    returned in Ok), the Err arm does not return an error that may be Interrupted without testing the
+    accumulator: the caller would retry and the bytes already handed over are lost (success with missing
+    data). An Err return that is control dependent on "not Interrupted" is fine."""
     from lzlint.core import control_conditions, field_path
     F = ctx.facts
     n = 0
@@ -827,7 +828,7 @@ def interrupt_latch(ctx):
                            callee_of(f.blocks[b]['term']) and callee_of(f.blocks[b]['term'])['path'].endswith('from_residual')]
                 for b in errret:
                     conds = [cx for _, cx in control_conditions(f, b, prov)] + [cx for _, _, cx in guards_of(f, b, prov)]
-                    if not any(any(y[0] == 'local' and y[1] in acc for y in expr_walk(cx)) for cx in conds):
+                    if not any(any(y[0] == 'local' and y[1] in acc for y in expr_walk(cx)) or 'Interrupted' in expr_str(cx) for cx in conds):
                         # can accumulation precede the inner read? (the read sits in a loop with the add)
                         adds = [b3 for l in acc for (b3, s3, k3, n3) in f.whole_defs(l) if f.in_loop(b3)]
                         if adds and f.in_loop(bi):
